@@ -491,6 +491,13 @@ esl_opt_ProcessConfigfile(ESL_GETOPTS *g, char *filename, FILE *fp)
 		 "%.24s is not a recognized option (config file %.24s, line %d)\n",
 		 optname, filename, line);
 
+      /* An option that takes an argument must have one on its line.
+       */
+      if (g->opt[opti].type != eslARG_NONE && optarg == NULL)
+	ESL_FAIL(eslESYNTAX, g->errbuf,
+		 "Option %.24s requires an argument (config file %.24s, line %d)\n",
+		 optname, filename, line);
+
       /* Set that option.
        * Pass TRUE to set_option's do_alloc flag, because our buffer
        * is volatile memory that's going away soon - set_option needs
